@@ -193,7 +193,20 @@ let () =
         | 3 -> feat "tdbl"; VDouble dbl_zero
         | _ -> feat "tdbl"; VDouble dbl_negzero in
       IMeta (gen_date (), ty, [(bs "host", VString (bs "h1")); (bs "n", VInt32 (zi (intn 100)))]) in
-    let gen_other () : item = feat "unk"; IOther (unknown_doc ()) in
+    (* decoys: a well-formed chunk or metadata document whose type is a non-integral double (1.5, 1.25, 0.5, -0.75):
+       neither 0 nor 1, so it is an unknown document; a reader that truncates the type takes it for the real thing *)
+    let retype (x : int64) (d : doc) : doc =
+      List.map (fun (k, v) -> if k = bs "type" then (k, VDouble (z_of_i64 x)) else (k, v)) d in
+    let gen_decoy () : item =
+      feat "unk"; feat "decoy";
+      let src = if chance 1 2 then gen_chunk () else gen_meta () in
+      let x = (match src with
+          | IChunk _ -> pick [| 0x3FF8000000000000L; 0x3FF4000000000000L; 0x3FFFFFFFFFFFFFFFL |]
+          | _ -> pick [| 0x3FE0000000000000L; 0xBFE8000000000000L; 0x3FEFFFFFFFFFFFFFL |]) in
+      (match x_spec_encode [src] with
+       | [d] -> IOther (retype x d)
+       | _ -> IOther (unknown_doc ())) in
+    let gen_other () : item = if chance 1 3 then gen_decoy () else (feat "unk"; IOther (unknown_doc ())) in
     let extras () : item list =
       List.concat (List.init (intn 3) (fun _ ->
           if chance 1 4 then [gen_meta ()] else if chance 1 3 then [gen_other ()] else [])) in
